@@ -828,6 +828,13 @@ class Run(RunBase):
             return
         a, b = self.calc, self.twin
         self.checks += 1
+        # the copy's crystal must carry the symmetry analysis of the original's (integer rotations, exactly): every
+        # later call that goes back to the crystal (generate, supercells, a new GF calculator) depends on it
+        ga = sorted(tuple(int(x) for x in g.rot.flatten()) for g in a.crys.G)
+        gb = sorted(tuple(int(x) for x in g.rot.flatten()) for g in b.crys.G)
+        if ga != gb:
+            self.fail("twin-crystal", "{}: the copy's crystal has {} group operations, the original's {}".format(
+                where, len(gb), len(ga)))
         if self.rebuilt:
             for t in a.__taglist__:
                 pa = frozenset(frozenset(c) for c in a.tags[t])
